@@ -163,7 +163,7 @@ func c07Gen(r *Rng, tier string, idx int) (string, func() string) {
 		return c07PDCase(r, []string{"ljh22", "ljh3", "off"}, true)
 	case idx == 4:
 		return c07PDCase(r, []string{"ljh22", "ljh3"}, true)
-	case idx >= 5 && idx <= 9:
+	case idx >= 5 && idx <= 12:
 		return c07ABCase(r, tier, idx-4, f)
 	}
 	switch c := r.Intn(1000); {
@@ -226,6 +226,12 @@ type c07Hop struct {
 type c07AB struct {
 	cap, lastQ, lastG, seen, accBytes int
 	noTick, closed                    bool
+	tickUs                            int   // flush interval (microseconds, 0 = none)
+	hasBig                            bool  // the script holds a chunk larger than bufio's buffer
+	inTick                            bool  // the consumer was SEEN blocked in the gate inside its periodic flush
+	tickBytes                         int   // bytes that periodic flush is writing
+	accLens                           []int // lengths of the accepted chunks, in order
+	nPopped                           int   // chunks received by the consumer so far
 	g                                 *c07Gate
 	aw                                *asyncbufio.Writer
 	toks                              []string
@@ -233,25 +239,47 @@ type c07AB struct {
 
 func (a *c07AB) tok(f string, x ...interface{}) { a.toks = append(a.toks, fmt.Sprintf(f, x...)) }
 
+func (a *c07AB) poppedBytes() int {
+	n := 0
+	for _, l := range a.accLens[:a.nPopped] {
+		n += l
+	}
+	return n
+}
+
 // observe: the consumer steps since the last look, as explicit tokens.  The file length is read
 // BEFORE the queue length: every byte seen in the file belongs to a chunk already received.
-func (a *c07AB) observe(acc int, popFirst bool) (string, string) {
+// While a periodic flush is known to be stalled (inTick) the consumer does nothing; the first receive or
+// file growth seen afterwards means that flush has finished (`te n`, n = the bytes it held).
+func (a *c07AB) observe(acc int, popFirst bool) (pre, post []string) {
 	g := a.g.Len()
 	q := a.aw.VerifQueueLen()
 	p := a.lastQ + acc - q
-	pre, post := "", ""
+	if a.inTick && p > 0 && g-a.lastG < a.tickBytes {
+		// the periodic flush ended between the two reads: its bytes are in the file by now
+		g = a.g.Len()
+		q = a.aw.VerifQueueLen()
+		p = a.lastQ + acc - q
+	}
+	dy := g - a.lastG
+	a.nPopped += p
+	var te []string
+	if a.inTick && (p > 0 || dy > 0) {
+		te = []string{fmt.Sprintf("te %d", a.tickBytes)}
+		dy -= a.tickBytes
+		a.inTick = false
+	}
 	if popFirst && p > 0 {
-		pre = "p 1"
+		pre = append(te, "p 1")
+		te = nil
 		p--
 	}
+	post = te
 	if p > 0 {
-		post = fmt.Sprintf("p %d", p)
+		post = append(post, fmt.Sprintf("p %d", p))
 	}
-	if g > a.lastG {
-		if post != "" {
-			post += " "
-		}
-		post += fmt.Sprintf("y %d", g-a.lastG)
+	if dy > 0 {
+		post = append(post, fmt.Sprintf("y %d", dy))
 	}
 	a.lastQ, a.lastG = q, g
 	return pre, post
@@ -264,14 +292,13 @@ func (a *c07AB) write(c []byte) bool {
 	full := a.lastQ == a.cap
 	_, err := a.aw.Write(c)
 	ok := err == nil
+	if ok {
+		a.accLens = append(a.accLens, len(c))
+	}
 	pre, post := a.observe(b2i(ok), ok && full)
-	if pre != "" {
-		a.tok("%s", pre)
-	}
+	a.toks = append(a.toks, pre...)
 	a.tok("w %s %d", hexs(c), b2i(ok))
-	if post != "" {
-		a.tok("%s", post)
-	}
+	a.toks = append(a.toks, post...)
 	if ok {
 		a.accBytes += len(c)
 	}
@@ -280,9 +307,28 @@ func (a *c07AB) write(c []byte) bool {
 
 func (a *c07AB) idle() {
 	_, post := a.observe(0, false)
-	if post != "" {
-		a.tok("%s", post)
+	a.toks = append(a.toks, post...)
+}
+
+// pinCheck: is the consumer blocked in the gate inside its PERIODIC flush?  (Outside a Flush/Close
+// rendezvous and with small chunks only the ticker branch reaches the gate.)  The state is stable while
+// the gate stays closed, so the reads are exact.  The channel is then empty (the periodic flush drained
+// it before entering bufio.Flush): `tb 0` after the receives already reported.
+func (a *c07AB) pinCheck() {
+	if a.inTick || a.closed || a.hasBig || a.noTick || a.g.IsOpen() || !a.g.Blocked() {
+		a.idle()
+		return
 	}
+	a.idle()
+	if a.lastQ != 0 {
+		return
+	}
+	a.tickBytes = a.poppedBytes() - a.lastG
+	if a.tickBytes <= 0 {
+		return
+	}
+	a.inTick = true
+	a.tok("tb 0")
 }
 
 func c07WaitUntil(d time.Duration, cond func() bool) bool {
@@ -337,6 +383,20 @@ func (a *c07AB) run(hops []c07Hop) string {
 			if !a.closed {
 				c07WaitUntil(3*time.Millisecond, a.g.Blocked)
 			}
+			a.pinCheck()
+		case "T": // wait for the ticker to fire into the closed gate
+			if !a.closed && !a.noTick && !a.g.IsOpen() {
+				c07WaitUntil(time.Duration(2*a.tickUs+2000)*time.Microsecond, a.g.Blocked)
+			}
+			a.pinCheck()
+		case "G1t": // the disk resumes; wait only until the stalled periodic flush is through, not for the next tick
+			was := a.inTick
+			want := a.lastG + a.tickBytes
+			a.g.SetOpen(true)
+			if was {
+				c07WaitUntil(20*time.Millisecond, func() bool { return !a.g.Blocked() && a.g.Len() >= want })
+				time.Sleep(50 * time.Microsecond)
+			}
 			a.idle()
 		case "G1", "G1n":
 			a.g.SetOpen(true)
@@ -368,6 +428,8 @@ func (a *c07AB) run(hops []c07Hop) string {
 			q := a.aw.VerifQueueLen()
 			a.tok("%s %d %s", strings.ToLower(h.kind), q, hexs(a.g.Slice(a.seen, g)))
 			a.lastQ, a.lastG, a.seen = q, g, g
+			a.nPopped = len(a.accLens) - q
+			a.inTick = false
 			if h.kind == "C" {
 				a.closed = true
 			}
@@ -390,8 +452,10 @@ func c07ABCase(r *Rng, tier string, hot int, f c07Facts) (string, func() string)
 		chk = 0 // multi-chunk client: only model = implementation is compared (not a dastard file)
 		k = r.Pick(2, 3, 5, 8)
 	}
-	tick := r.Pick(100, 100, 200, 1000, 0) // microseconds; 0 = one hour (no periodic flush)
+	tick := r.Pick(100, 100, 200, 1000, 3000, 3000, 0) // microseconds; 0 = one hour (no periodic flush)
+	hasBig := false
 	next := byte(r.Intn(256))
+	minLen := 0
 	mkRec := func(k int, big bool) c07Hop {
 		h := c07Hop{kind: "R"}
 		for j := 0; j < k; j++ {
@@ -399,7 +463,11 @@ func c07ABCase(r *Rng, tier string, hot int, f c07Facts) (string, func() string)
 			if r.Chance(15) {
 				n = 0
 			}
+			if n < minLen {
+				n = minLen
+			}
 			if big {
+				hasBig = true
 				n = 4097 + r.Intn(200) // larger than bufio's buffer: the consumer writes it straight to the file
 				big = false
 			}
@@ -421,11 +489,45 @@ func c07ABCase(r *Rng, tier string, hot int, f c07Facts) (string, func() string)
 	case 2: // LJH2.2-shaped 3-chunk records against a queue of 4 under a stall
 		capv, k, tick = 4, 3, 100
 		hops = append(hops, mkRec(3, false), c07Hop{kind: "G0"}, mkRec(3, false), mkRec(3, false), mkRec(3, false), c07Hop{kind: "G1"}, c07Hop{kind: "F"}, mkRec(3, false), c07Hop{kind: "C"})
+	case 3, 4, 5: // a write lands while the PERIODIC flush is stalled on the disk; the disk resumes; explicit Flush
+		capv, tick, chk = r.Pick(2, 3, 5, 8), r.Pick(3000, 5000), 1
+		k = ks[0]
+		if k < 1 || k > 20 {
+			k = 1
+		}
+		for j := r.Intn(3); j > 0; j-- {
+			hops = append(hops, mkRec(k, false))
+		}
+		minLen = 1
+		hops = append(hops, c07Hop{kind: "G0"}, mkRec(k, false), c07Hop{kind: "T"})
+		for j := r.Range(1, 2); j > 0; j-- {
+			hops = append(hops, mkRec(k, false))
+		}
+		hops = append(hops, c07Hop{kind: "G1t"}, c07Hop{kind: "F"}, mkRec(k, false), c07Hop{kind: "C"})
 	default:
 		n := r.Range(3, 30)
 		gateOpen := true
 		for i := 0; i < n; i++ {
 			switch c := r.Intn(100); {
+			case c < 12 && gateOpen && tick > 0: // stalled periodic flush with writes inside, then resume (+ Flush)
+				add("G0")
+				minLen = 1
+				hops = append(hops, mkRec(k, false))
+				add("T")
+				for j := r.Range(0, capv+1); j > 0; j-- {
+					hops = append(hops, mkRec(k, false))
+				}
+				minLen = 0
+				switch r.Intn(4) {
+				case 0:
+					add("F") // Flush issued while the periodic flush is still stalled
+				case 1:
+					add("G1t")
+					add("Z")
+				default:
+					add("G1t")
+					add("F")
+				}
 			case c < 45:
 				hops = append(hops, mkRec(k, tier == "thorough" && r.Chance(1)))
 			case c < 60:
@@ -438,10 +540,16 @@ func c07ABCase(r *Rng, tier string, hot int, f c07Facts) (string, func() string)
 						hops = append(hops, mkRec(k, false))
 					}
 				} else {
-					if r.Chance(70) {
+					switch c := r.Intn(100); {
+					case c < 50:
 						add("G1")
-					} else {
+					case c < 70:
 						add("G1n")
+					default:
+						add("G1t")
+						if r.Chance(60) {
+							add("F")
+						}
 					}
 					gateOpen = true
 				}
@@ -482,7 +590,7 @@ func c07ABCase(r *Rng, tier string, hot int, f c07Facts) (string, func() string)
 		if tick == 0 {
 			d = time.Hour
 		}
-		a := &c07AB{cap: capv, g: newC07Gate(), noTick: tick == 0}
+		a := &c07AB{cap: capv, g: newC07Gate(), noTick: tick == 0, tickUs: tick, hasBig: hasBig}
 		a.aw = asyncbufio.NewWriter(a.g, capv, d)
 		if a.aw.VerifQueueCap() != capv {
 			return "PANIC queue-capacity-differs"
